@@ -11,7 +11,45 @@ import (
 	"verifchk/core"
 )
 
-const recycleSuffix = ".recycleValidators"
+// recycleSuffix / skipSchemataField: the option fields the rules refer to, resolved from the exported option
+// constructors (WithRecycleValidators, WithSkipSchemataResult) by ResolveOptionFields so that a rename of the
+// unexported field is followed.
+var recycleSuffix = ".recycleValidators"
+var skipSchemataField = "skipSchemataResult"
+
+// ResolveOptionFields finds the field each exported option constructor sets.
+func ResolveOptionFields(p *core.Prog) {
+	fieldSetBy := func(ctor string) string {
+		g := p.Func(ctor)
+		if g == nil {
+			return ""
+		}
+		name := ""
+		var walk func(f *ssa.Function)
+		walk = func(f *ssa.Function) {
+			core.EachInstr(f, func(i ssa.Instruction) {
+				if st, ok := i.(*ssa.Store); ok {
+					if fa, ok := st.Addr.(*ssa.FieldAddr); ok {
+						if _, n, ok := core.FieldOf(fa); ok {
+							name = n
+						}
+					}
+				}
+			})
+			for _, a := range f.AnonFuncs {
+				walk(a)
+			}
+		}
+		walk(g)
+		return name
+	}
+	if n := fieldSetBy("WithRecycleValidators"); n != "" {
+		recycleSuffix = "." + n
+	}
+	if n := fieldSetBy("WithSkipSchemataResult"); n != "" {
+		skipSchemataField = n
+	}
+}
 
 type slotInfo struct {
 	p  *core.Prog
